@@ -310,7 +310,7 @@ enum Negotiated {
 /// client Error PDU (RFC 8210 section 10 makes error reports fatal for the
 /// session while the property text promises nothing either way), and at a
 /// query whose version contradicts a `Maybe`.
-fn model(seq: &[Q], lens: &[usize], data: &Data) -> (Vec<Expect>, Vec<usize>, bool) {
+fn model(seq: &[Q], lens: &[usize], data: &Data) -> (Vec<Expect>, Vec<usize>, bool, usize) {
     let mut out = Vec::new();
     // due[i]: number of client octets after which response i is determined
     // (all of a well-formed query; the 8 header octets of anything that is
@@ -318,7 +318,10 @@ fn model(seq: &[Q], lens: &[usize], data: &Data) -> (Vec<Expect>, Vec<usize>, bo
     let mut due: Vec<usize> = Vec::new();
     let mut negotiated = Negotiated::No;
     let mut start = 0usize;
-    for (q, len) in seq.iter().zip(lens.iter()) {
+    // number of leading client PDUs after which the server is known to be between queries, in frame
+    let mut in_frame = 0usize;
+    for (k, (q, len)) in seq.iter().zip(lens.iter()).enumerate() {
+        in_frame = k;
         let (hdr_end, end) = (start + 8, start + len);
         start = end;
         let v = match *q {
@@ -340,17 +343,17 @@ fn model(seq: &[Q], lens: &[usize], data: &Data) -> (Vec<Expect>, Vec<usize>, bo
                 continue
             }
             // the body stays in the stream: out of frame from here on
-            Q::BadLength => { out.push(Expect::ErrorPdu); due.push(hdr_end); return (out, due, false) }
-            Q::ErrorPdu => return (out, due, false),
+            Q::BadLength => { out.push(Expect::ErrorPdu); due.push(hdr_end); return (out, due, false, in_frame) }
+            Q::ErrorPdu => return (out, due, false, in_frame),
         };
         match negotiated {
             Negotiated::Yes(n) if n != v => {
                 out.push(Expect::ErrorPdu); due.push(hdr_end);
                 // a reset query is its header: still in frame, version unchanged;
                 // a serial query leaves its body behind
-                if matches!(q, Q::Reset(_)) { continue } else { return (out, due, false) }
+                if matches!(q, Q::Reset(_)) { continue } else { return (out, due, false, in_frame) }
             }
-            Negotiated::Maybe(n) if n != v => return (out, due, false),
+            Negotiated::Maybe(n) if n != v => return (out, due, false, in_frame),
             _ => negotiated = Negotiated::Yes(v),
         }
         let mut unit = Vec::new();
@@ -374,7 +377,7 @@ fn model(seq: &[Q], lens: &[usize], data: &Data) -> (Vec<Expect>, Vec<usize>, bo
         }
         out.push(Expect::Exact(unit)); due.push(end);
     }
-    (out, due, true)
+    (out, due, true, seq.len())
 }
 
 
@@ -607,6 +610,10 @@ struct Stream {
     names: String, bytes: Vec<u8>, qs: Vec<Q>, npdus: usize, bounds: Vec<usize>,
     /// Per predicted response unit: the number of client octets that determine it.
     due: Vec<usize>,
+    /// Numbers of client octets after which the server is known to be idle
+    /// between queries: 0 and the ends of the leading PDUs that the model
+    /// knows to leave the stream in frame.
+    idle_at: Vec<usize>,
 }
 
 /// "The response is produced as soon as the octets that determine it have
@@ -666,6 +673,7 @@ fn main() {
                     npdus: idx.len(),
                     bounds: { let mut acc = 0; let mut b = vec![0usize]; for i in idx.iter() { acc += alpha[*i].bytes.len(); b.push(acc) } b },
                     due: model(&idx.iter().map(|i| alpha[*i].q).collect::<Vec<_>>(), &idx.iter().map(|i| alpha[*i].bytes.len()).collect::<Vec<_>>(), &Data::base()).1,
+                    idle_at: { let m = model(&idx.iter().map(|i| alpha[*i].q).collect::<Vec<_>>(), &idx.iter().map(|i| alpha[*i].bytes.len()).collect::<Vec<_>>(), &Data::base()); let mut acc = 0; let mut b = vec![0usize]; for i in idx.iter().take(m.3) { acc += alpha[*i].bytes.len(); b.push(acc) } b },
                 });
             }
             if left == 0 { return }
@@ -707,7 +715,7 @@ fn main() {
         sp.eval();
         let wit = || format!("stream={} hex={} sched={}", st.names, hex(&st.bytes), render_script(&script));
         let lens: Vec<usize> = st.bounds.windows(2).map(|w| w[1] - w[0]).collect();
-        let (expect, _, complete) = model(&st.qs, &lens, &base);
+        let (expect, _, complete, _) = model(&st.qs, &lens, &base);
         if expect.iter().any(|e| matches!(e, Expect::Exact(_))) { sp.nontrivial(1) }
         ctx.check("C08.ref.model", wit, || check_against_model(&obs, &expect, complete));
         // the answers must be on the wire at quiescence, before the client closes
@@ -787,7 +795,7 @@ fn main() {
                 let bytes: Vec<u8> = seq.iter().flat_map(|i| syms[*i].1.iter().copied()).collect();
                 let qs: Vec<Q> = seq.iter().map(|i| syms[*i].2).collect();
                 let lens: Vec<usize> = seq.iter().map(|i| syms[*i].1.len()).collect();
-                let (expect, due, complete) = model(&qs, &lens, data);
+                let (expect, due, complete, _) = model(&qs, &lens, data);
                 let l = bytes.len();
                 let scripts: [Vec<Ev>; 4] = [
                     vec![Ev::Deliver(l), Ev::Settle, Ev::Close, Ev::Settle],
@@ -867,13 +875,38 @@ fn main() {
                 if let Some(d) = prompt_check(script, &obs.marks, &st.due, &parsed.unit_raw_end) {
                     bad.push(("C08.sched.prompt", d));
                 }
-                // a notification the live connection had time to see must show up as a Serial Notify:
-                // some notify event is followed by a run to quiescence before the client closes
+                // A notification must show up as a Serial Notify if the server had an
+                // opportunity to send it: after the notify event there is a run to
+                // quiescence, before the client closes, at which (a) the connection is
+                // still open, (b) writes are not held back and (c) the octets received
+                // so far end on a query boundary of an in-frame stream, i.e. the server
+                // is idle between queries with the notification pending.
+                // Correction (false alarm on the negative control "select(header,
+                // notify)"): the precondition used to be only "a run to quiescence
+                // follows the notify and the connection stays open". With `d8 N | d4 C |`
+                // the notification arrives while a serial query is half received; the
+                // server may not interrupt the query (notifies belong between responses),
+                // and the rest of the query arrives together with the close, so a server
+                // that looks at the socket first answers and then sees the end of the
+                // stream. C08 does not promise delivery to a client that closes right
+                // after its query; (c) was added for that.
                 let close_at = script.iter().position(|e| matches!(e, Ev::Close)).unwrap_or(script.len());
-                let settled_notify = script[..close_at].iter().enumerate().any(|(i, e)| matches!(e, Ev::Notify) && script[i..close_at].iter().any(|x| matches!(x, Ev::Settle)));
-                let held_back = script.iter().any(|e| matches!(e, Ev::WriteBudget(_))) && !script[..close_at].iter().any(|e| matches!(e, Ev::Unblock));
-                if settled_notify && obs.alive_before_close && !held_back && parsed.notifies == 0 {
-                    bad.push(("C08.sched.notify_delivered", format!("{fired} notify events reached a connection that stayed open, no Serial Notify was sent")));
+                let mut opportunity = false;
+                {
+                    let (mut d, mut held, mut pending) = (0usize, false, false);
+                    for e in &script[..close_at] {
+                        match e {
+                            Ev::Deliver(k) => d += k,
+                            Ev::Notify => pending = true,
+                            Ev::WriteBudget(_) => held = true,
+                            Ev::Unblock => held = false,
+                            Ev::Settle => if pending && !held && st.idle_at.contains(&d) { opportunity = true },
+                            _ => {}
+                        }
+                    }
+                }
+                if opportunity && obs.alive_before_close && parsed.notifies == 0 {
+                    bad.push(("C08.sched.notify_delivered", format!("{fired} notify events were pending while the connection was open and idle between queries, no Serial Notify was sent")));
                 }
             }
         }
